@@ -273,7 +273,20 @@ fn markup_case(src: &mut Src, ctx: &mut Ctx) -> Result<(), String> {
         }
         _ => {}
     }
-    let lib = to_gds(&m);
+    let mut lib = to_gds(&m);
+    // now and then an element with as many points as one XY record can hold (8191), or one fewer
+    if !lib.structs.is_empty() && src.prob(1, 25) {
+        let n = 8191 - src.usize_in(0, 1);
+        let xy: Vec<gds21::GdsPoint> = (0..n).map(|i| gds21::GdsPoint::new(i as i32, (i % 7) as i32)).collect();
+        let el = match src.below(3) {
+            0 => gds21::GdsElement::GdsBoundary(gds21::GdsBoundary { layer: 5, datatype: 6, xy, ..Default::default() }),
+            1 => gds21::GdsElement::GdsPath(gds21::GdsPath { layer: 5, datatype: 6, xy, ..Default::default() }),
+            _ => gds21::GdsElement::GdsNode(gds21::GdsNode { layer: 5, nodetype: 6, xy, ..Default::default() }),
+        };
+        let k = src.index(lib.structs.len());
+        lib.structs[k].elems.push(el);
+        ctx.label("an element with the most points a record can hold");
+    }
     let (_, fname) = fmt_of(src.below(2));
     // the converters' chatty mode prints statistics; it must not change what is converted
     let (verbose_to, verbose_from) = (src.bool(), src.bool());
